@@ -376,6 +376,37 @@ theorem reverse_area_onStart (q : Point) (rest : List Point) (hq : q.seg ≠ non
   rw [hR]
   exact hasOn_of_head _ _ (by simp [hq'])
 
+/-- a reversed closed contour still has no `move` -/
+theorem noMove_reversePoints (pts : List Point) (hm : noMove pts = true) : noMove (reversePoints pts) = true := by
+  match pts with
+  | [] => rfl
+  | p0 :: rest =>
+    have hm0 : ∀ p ∈ p0 :: rest, p.seg ≠ some .move := by simpa [noMove] using hm
+    have hp0 := hm0 p0 (List.mem_cons_self ..)
+    rw [reversePoints_closed p0 rest hp0]
+    have hmr : noMove (p0 :: rest.reverse) = true := by
+      simp only [noMove, List.all_eq_true, decide_eq_true_eq]
+      intro p hp
+      apply hm0 p
+      rcases List.mem_cons.1 hp with rfl | hp
+      · exact List.mem_cons_self ..
+      · exact List.mem_cons_of_mem _ (List.mem_reverse.1 hp)
+    cases hf : firstOnType? (rest ++ [p0]) with
+    | none =>
+      have hno : hasOn (p0 :: rest.reverse) = false := by
+        have h1 := firstOnType?_eq_none.1 hf
+        have : p0 :: rest.reverse = (rest ++ [p0]).reverse := by simp
+        rw [this, hasOn_reverse]; exact h1
+      rw [retype_noOn _ _ hno]; exact hmr
+    | some a =>
+      apply noMove_retype a _ _ hmr
+      apply firstOnType?_ne_move hf
+      intro p hp
+      apply hm0 p
+      rcases List.mem_append.1 hp with hp | hp
+      · exact List.mem_cons_of_mem _ hp
+      · simp at hp; subst hp; exact List.mem_cons_self ..
+
 /-! ### any start point: reversal commutes with rotation -/
 
 theorem carry_indep (x y : Seg) (l : List Point) (h : hasOn l = true) : carry x l = carry y l := by
